@@ -55,6 +55,13 @@ ValueFamilies == <<
   [name |-> "besseli.edge",    n |-> Len(BesEdgeList)],
   [name |-> "besseli.bigx",    n |-> Len(BesBigNs) * Len(BesBigXs)],
   [name |-> "logadd.inf",      n |-> Len(LogInfList)],
+  [name |-> "gammad1.tiny",    n |-> Len(TinyList)],
+  [name |-> "gammad2.tiny",    n |-> Len(TinyList2)],
+  [name |-> "gammaupper.big",  n |-> Len(UpperBigList)],
+  [name |-> "gammalower.big",  n |-> Len(LowerBigList)],
+  [name |-> "gammad1.big",     n |-> Len(D1BigList)],
+  [name |-> "besseli.series",  n |-> Len(BesSerList)],
+  [name |-> "logbesseli.series", n |-> Len(LogBesSerList)],
   [name |-> "class",           n |-> Len(ClassList)]
 >>
 
@@ -97,11 +104,19 @@ ValueCase(name, k) ==
     [] name = "besseli.edge"    -> BesEdge(BesEdgeList[k])
     [] name = "besseli.bigx"    -> BesBig(BesBigNs[((k - 1) \div Len(BesBigXs)) + 1], BesBigXs[((k - 1) % Len(BesBigXs)) + 1])
     [] name = "logadd.inf"      -> LogInf(LogInfList[k])
+    [] name = "gammad1.tiny"    -> GammaD1Tiny(TinyList[k][1], TinyList[k][2])
+    [] name = "gammad2.tiny"    -> GammaD2Tiny(TinyList2[k][1], TinyList2[k][2])
+    [] name = "gammaupper.big"  -> GammaUpperBig(UpperBigList[k][1], UpperBigList[k][2])
+    [] name = "gammalower.big"  -> GammaLowerBig(LowerBigList[k][1], LowerBigList[k][2])
+    [] name = "gammad1.big"     -> GammaD1Big(D1BigList[k][1], D1BigList[k][2])
+    [] name = "besseli.series"  -> BesSer(BesSerList[k][1], BesSerList[k][2])
+    [] name = "logbesseli.series" -> LogBesSer(LogBesSerList[k][1], LogBesSerList[k][2])
     [] name = "class"           -> ClassCase(k)
     [] name = "mgamma.closed"   -> LET kk == MlgKs[((k - 1) \div 7) + 1] IN MgammaClosed(MlgX2(kk)[((k - 1) % 7) + 1], kk)
 
 CaseOf(gg, ff, k) ==
   IF gg = 1 THEN ValueCase(ValueFamilies[ff].name, k)
+  ELSE IF gg = 5 THEN PureCase(ff)
   ELSE LET loc == Locate(ff, 1) IN
        IF gg = 2 THEN InstCase(SchemaOf(loc[1], loc[2]), PointAt(loc[1], loc[2], k), "")
        ELSE IF gg = 4 THEN LET S == SchemaOf(loc[1], loc[2]) IN GridCase(S, GridPoint(S, k, Grid1, Grid2))
@@ -110,6 +125,7 @@ CaseOf(gg, ff, k) ==
 Init == \/ /\ g = 1 /\ f \in 1..Len(ValueFamilies) /\ i \in 1..ValueFamilies[f].n
         \/ /\ g = 2 /\ f \in 1..NIdFam /\ i \in 1..PointCount(Locate(f, 1)[1], Locate(f, 1)[2])
         \/ /\ g = 3 /\ f \in 1..NIdFam /\ i = 1
+        \/ /\ g = 5 /\ f \in 1..Len(PureFamilies) /\ i = 1
         \/ /\ Grid1 > 0 /\ g = 4 /\ f \in 1..NIdFam
            /\ i \in 1..GridCount(SchemaOf(Locate(f, 1)[1], Locate(f, 1)[2]), Grid1, Grid2)
 Next == UNCHANGED <<g, f, i>>
